@@ -219,8 +219,9 @@ def _close(groups):
 # contract of reconcile_spike_trains (sorted, duplicate free, every input spike inside the interval kept, nothing else)
 # is part of each of them (two seeded tolerance-based de-duplications were first missed by properties without it).
 # ... and so are the wrappers around the kernels: call forms, lists with a train occurring twice, near-identical trains
-_WRAPPED = {'C01': ['plumb.forms', 'plumb.near', 'plumb.repeated'], 'C02': ['plumb.forms', 'plumb.near', 'plumb.repeated'],
-            'C03': ['plumb.forms', 'plumb.near', 'plumb.repeated'], 'C04': ['plumb.forms', 'plumb.near', 'plumb.repeated', 'plumb.same_window'],
+_WRAPPED = {'C13': ['merge.B', 'plumb.inplace'], 'C06': ['plumb.near'] + ['%s_add_%s.%s' % (k, c, t) for k in ('pwc', 'pwl', 'disc') for c in ('fb', 'cy') for t in ('P', 'B')],
+            'C01': ['plumb.forms', 'plumb.near', 'plumb.repeated', 'plumb.inplace'], 'C02': ['plumb.forms', 'plumb.near', 'plumb.repeated', 'plumb.inplace'],
+            'C03': ['plumb.forms', 'plumb.near', 'plumb.repeated', 'plumb.inplace'], 'C04': ['plumb.forms', 'plumb.near', 'plumb.repeated', 'plumb.same_window'],
             'C14': ['plumb.near', 'plumb.same_window'], 'C07': ['plumb.near', 'plumb.repeated'], 'C16': ['plumb.same_window']}
 _PUBLIC_MEASURES = ('C01', 'C02', 'C03', 'C04', 'C05', 'C06', 'C07', 'C08', 'C12', 'C14', 'C15', 'C16', 'C17', 'C18')
 # C18 (no exception, finite, well formed) also covers the averaging over sub-intervals done by the profile classes
